@@ -16,6 +16,31 @@ def takeSpecs (g : Bool) (base : Nat) : Nat → Nat → List Nat → Option (Lis
     | none => none
   | _, _, _ => none
 
+/-- parse `np (nl (off lb lr)*nl)*np`: the local specs of `np` policies, names numbered through. -/
+def takePolicies : Nat → Nat → List Nat → Option (List (List Spec) × List Nat)
+  | 0, _, rest => some ([], rest)
+  | n + 1, i, nl :: rest =>
+    match takeSpecs false (8 + i) nl 0 rest with
+    | some (l, r) =>
+      match takePolicies n (i + nl) r with
+      | some (ps, r') => some (l :: ps, r')
+      | none => none
+    | none => none
+  | _, _, _ => none
+
+/-- `verify_metadata_context` once per policy on one checker: the k-th call checks the global specs (first call) and
+ALL local specs registered so far (`get_all_specs(false)`; the names are distinct, nothing is deduplicated). -/
+def multiVerdict (g : List Spec) : List Spec → List (List Spec) → String
+  | _, [] => "ok"
+  | acc, l :: ps =>
+    let all := acc ++ l
+    if (g ++ all).all (fun s => decide s.legal) then
+      match verifyContext noOverlap g all with
+      | .ok => multiVerdict g all ps
+      | .panicOther => "panic:other"
+      | .panicAssert => "panic:assert"
+    else "panic:overflow"
+
 def run (args : List String) : String :=
   match args with
   | "pair" :: rest =>
@@ -44,6 +69,17 @@ def run (args : List String) : String :=
             | .panicOther => "panic:other"
             | .panicAssert => "panic:assert"
           else "panic:overflow"
+        | _ => "bad-op"
+      | _ => "bad-op"
+    | _ => "bad-op"
+  | "multi" :: rest =>
+    match nums? rest with
+    | some (ng :: rest) =>
+      match takeSpecs true 0 ng 0 rest with
+      | some (g, np :: rest') =>
+        if np > 8 then "bad-op" else
+        match takePolicies np 0 rest' with
+        | some (ps, []) => if (ps.map List.length).sum > 8 then "bad-op" else multiVerdict g [] ps
         | _ => "bad-op"
       | _ => "bad-op"
     | _ => "bad-op"
